@@ -23,6 +23,7 @@ import (
 	"sort"
 	"strings"
 	"sync"
+	"sync/atomic"
 	"time"
 
 	"wgv/cosim"
@@ -47,6 +48,11 @@ type Cfg struct {
 	SlowSend  int   `json:"slow_send_us"`  // extra sleep in every Bind.Send (slow consumer, outbound)
 	SlowWrite int   `json:"slow_write_us"` // extra sleep in every TUN Write (slow consumer, inbound)
 	BigMix    bool  `json:"big_mix"`       // packet sizes 36..1400 instead of 36..300
+	DownUp    bool  `json:"down_up"`       // prelude: Down; TUN packets for configured peers while down; Up; then the sessions
+	Remove    bool  `json:"remove"`        // the LAST peer is removed (UAPI remove=true) in the middle of the traffic
+	Huge      bool  `json:"huge"`          // all packets 1300..1400 bytes (Seal takes long)
+	// percentage of the traffic that goes to the peer that will be removed; the rest is spread over all peers
+	VictimShare int `json:"victim_share"`
 }
 
 type OLane struct {
@@ -68,6 +74,15 @@ type Case struct {
 	In    []ILane        `json:"in"`
 	Quiet bool           `json:"quiet"`
 	Info  map[string]any `json:"info"`
+	// index of the peer removed during the run (-1 = none): its lanes only have to be prefixes
+	Removed int `json:"removed"`
+}
+
+func pktLen2(r *rand.Rand, c Cfg) int {
+	if c.Huge {
+		return 1300 + r.Intn(100)
+	}
+	return pktLen(r, c.BigMix)
 }
 
 func pktLen(r *rand.Rand, big bool) int {
@@ -99,23 +114,55 @@ func runCase(c Cfg) Case {
 	}
 	w.Timeout = 10 * time.Second
 	info := map[string]any{}
-	cs := Case{Cfg: c, Info: info}
+	cs := Case{Cfg: c, Info: info, Removed: -1}
+	fail := func(msg string) Case {
+		// the pipeline could not even be set up (or wedged while being set up): a failed run
+		info["error"] = msg
+		cs.Quiet = false
+		cs.Out = []OLane{{N: c.NOut, Bad: 1, Sent: [][3]uint64{}}}
+		cs.In = []ILane{{N: c.NIn, Bad: 1, Wr: [][2]uint64{}}}
+		closed := make(chan struct{})
+		go func() { w.Close(); close(closed) }()
+		select {
+		case <-closed:
+		case <-time.After(3 * time.Second):
+		}
+		return cs
+	}
+	if c.DownUp {
+		// interface goes down; the TUN still delivers packets for configured peers; interface comes up again
+		w.TunIn(stress.Packet([4]byte{10, 9, 9, 9}, [4]byte{10, 0, 0, 2}, 40, 0, 0)) // some traffic before (starts a handshake, unanswered)
+		if err := w.Dev.Down(); err != nil {
+			return fail("down: " + err.Error())
+		}
+		for k := 0; k < 3; k++ {
+			for i := range peers {
+				w.Tun.Inject(stress.Packet([4]byte{10, 9, 9, 9}, [4]byte{10, 0, byte(i), 2}, 60+k, uint64(i), 0))
+			}
+			w.Settle()
+		}
+		if err := w.Dev.Up(); err != nil {
+			return fail("up: " + err.Error())
+		}
+		for _, p := range peers { // the spacing of initiations must not hide the new ones
+			w.Dev.VerifShiftHandshakeTimes(cosim.NoisePK(p.Pub), 6*time.Second)
+		}
+		w.Take()
+	}
+	w.Timeout = 5 * time.Second
 	// sessions: the device initiates towards every peer
 	for i, p := range peers {
 		out := w.TunIn(stress.Packet([4]byte{10, 9, 9, 9}, [4]byte{10, 0, byte(i), 2}, 40, uint64(i), 0))
 		init := cosim.FindInitiation(out.Sent)
 		if init == nil {
-			info["error"] = "no initiation"
-			w.Close()
-			return cs
+			return fail("no initiation towards " + p.Name)
 		}
 		if _, _, err := w.AnswerInitiation(p, init.Data, p.Addr); err != nil {
-			info["error"] = err.Error()
-			w.Close()
-			return cs
+			return fail(err.Error())
 		}
 	}
 	w.Take()
+	w.Timeout = 10 * time.Second
 	cs.Out = make([]OLane, len(peers))
 	cs.In = make([]ILane, len(peers))
 	for i, p := range peers {
@@ -130,21 +177,66 @@ func runCase(c Cfg) Case {
 		data []byte
 	}
 	var outPlan, inPlan []item
+	victim := len(peers) - 1
+	pick := func() int {
+		if c.Remove && r.Intn(100) < c.VictimShare {
+			return victim // most of the load goes to the peer that will be removed
+		}
+		return r.Intn(len(peers))
+	}
+	if c.Remove {
+		cs.Removed = victim
+	}
 	for k := 0; k < c.NOut; k++ {
-		pi := r.Intn(len(peers))
+		pi := pick()
 		cs.Out[pi].N++
-		outPlan = append(outPlan, item{pi, stress.Packet([4]byte{10, 9, 9, 9}, [4]byte{10, 0, byte(pi), 2}, pktLen(r, c.BigMix), uint64(pi), uint64(cs.Out[pi].N))})
+		outPlan = append(outPlan, item{pi, stress.Packet([4]byte{10, 9, 9, 9}, [4]byte{10, 0, byte(pi), 2}, pktLen2(r, c), uint64(pi), uint64(cs.Out[pi].N))})
 	}
 	for k := 0; k < c.NIn; k++ {
-		pi := r.Intn(len(peers))
+		pi := pick()
 		cs.In[pi].N++
-		inner := stress.Packet([4]byte{10, 0, byte(pi), 2}, [4]byte{10, 9, 9, 9}, pktLen(r, c.BigMix), uint64(pi), uint64(cs.In[pi].N))
+		inner := stress.Packet([4]byte{10, 0, byte(pi), 2}, [4]byte{10, 9, 9, 9}, pktLen2(r, c), uint64(pi), uint64(cs.In[pi].N))
 		inPlan = append(inPlan, item{pi, peers[pi].Session().Next(ref.Pad(inner))})
 	}
 
 	pcfg := stress.Config{Procs: c.Procs, Hogs: c.Hogs, OneIn: c.OneIn, MaxSleep: time.Duration(c.MaxSleep) * time.Microsecond}
 	per := stress.Start(w, rng, pcfg)
+	removed := make(chan error, 1)
+	var sentToVictim atomic.Int64
+	var removeOnce sync.Once
+	removeAfter := int64(20 + r.Intn(200))     // datagrams of the victim seen on the wire before it may be removed
+	encBacklog := []int{1, 2, 4, 8}[r.Intn(4)] // ... and this many containers waiting for an encryption worker
+	doRemove := func() {
+		removeOnce.Do(func() {
+			go func() {
+				removed <- w.Dev.IpcSet(fmt.Sprintf("public_key=%x\nremove=true\n", peers[victim].Pub[:]))
+			}()
+		})
+	}
+	stopWatch := make(chan struct{})
+	if c.Remove {
+		// remove the victim at a moment when its traffic flows AND containers are queued for encryption
+		go func() {
+			for {
+				select {
+				case <-stopWatch:
+					return
+				default:
+				}
+				if sentToVictim.Load() >= removeAfter {
+					if enc, _, _ := w.Dev.VerifQueueLens(); enc >= encBacklog {
+						doRemove()
+						return
+					}
+				}
+				time.Sleep(20 * time.Microsecond)
+			}
+		}()
+	}
 	w.Bind.SendGate = func(bufs [][]byte, to netip.AddrPort) {
+		if c.Remove && to == peers[victim].Addr {
+			sentToVictim.Add(int64(len(bufs)))
+		}
 		stress.Nap(rng, pcfg)
 		if c.SlowSend > 0 {
 			time.Sleep(time.Duration(c.SlowSend) * time.Microsecond)
@@ -162,6 +254,7 @@ func runCase(c Cfg) Case {
 	go func() {
 		defer wg.Done()
 		for i := 0; i < len(outPlan); {
+
 			n := 1 + rng.Intn(c.ChunkMax)
 			if i+n > len(outPlan) {
 				n = len(outPlan) - i
@@ -196,6 +289,24 @@ func runCase(c Cfg) Case {
 		}
 	}()
 	wg.Wait()
+	if c.Remove {
+		// the producers are done injecting; the device is still working: wait for the trigger (or for the device to run dry)
+		for dl := time.Now().Add(10 * time.Second); sentToVictim.Load() < removeAfter && time.Now().Before(dl); {
+			if sim.Quiesce(w.Dev, w.Bind, w.Tun, 2*time.Millisecond) {
+				break
+			}
+		}
+		close(stopWatch)
+		doRemove() // the wished-for moment never came: remove it now
+		select {
+		case err := <-removed:
+			if err != nil {
+				info["remove_error"] = err.Error()
+			}
+		case <-time.After(20 * time.Second):
+			info["remove_hung"] = true
+		}
+	}
 	cs.Quiet = w.Settle()
 	info["wall_ms"] = time.Since(t0).Milliseconds()
 	per.Stop()
@@ -295,13 +406,37 @@ func isolated(c Cfg) Case {
 	if len(msg) > 600 {
 		msg = msg[:600]
 	}
-	cs = Case{Cfg: c, Quiet: false, Info: map[string]any{"crash": fmt.Sprintf("%v: %s", err, msg)}}
+	cs = Case{Cfg: c, Quiet: false, Removed: -1, Info: map[string]any{"crash": fmt.Sprintf("%v: %s", err, msg)}}
 	cs.Out = []OLane{{N: c.NOut, Bad: 1, Sent: [][3]uint64{}}} // a run that died did not finish its work
 	cs.In = []ILane{{N: c.NIn, Bad: 1, Wr: [][2]uint64{}}}
 	return cs
 }
 
 func gallina(c Case) string {
+	var b strings.Builder
+	full := c
+	var pout []OLane
+	var pin []ILane
+	if c.Removed >= 0 && c.Removed < len(c.Out) && c.Removed < len(c.In) {
+		pout, pin = []OLane{c.Out[c.Removed]}, []ILane{c.In[c.Removed]}
+		full.Out = append(append([]OLane{}, c.Out[:c.Removed]...), c.Out[c.Removed+1:]...)
+		full.In = append(append([]ILane{}, c.In[:c.Removed]...), c.In[c.Removed+1:]...)
+	}
+	b.WriteString(gallinaLanes(full.Out, full.In))
+	fmt.Fprintf(&b, " %v [", c.Quiet)
+	for i, l := range full.Out {
+		if i > 0 {
+			b.WriteString(";")
+		}
+		fmt.Fprintf(&b, "%d", l.N0)
+	}
+	b.WriteString("] ")
+	b.WriteString(strings.TrimPrefix(gallinaLanes(pout, pin), "mk "))
+	return b.String()
+}
+
+func gallinaLanes(out []OLane, in []ILane) string {
+	c := Case{Out: out, In: in}
 	var b strings.Builder
 	b.WriteString("mk [")
 	for i, l := range c.Out {
@@ -339,13 +474,6 @@ func gallina(c Case) string {
 		}
 		fmt.Fprintf(&b, "] %d", l.Bad)
 	}
-	fmt.Fprintf(&b, "] %v [", c.Quiet)
-	for i, l := range c.Out {
-		if i > 0 {
-			b.WriteString(";")
-		}
-		fmt.Fprintf(&b, "%d", l.N0)
-	}
 	b.WriteString("]")
 	return b.String()
 }
@@ -371,6 +499,27 @@ func genCfg(r *rand.Rand, i int, pkts int) Cfg {
 		NOut: pkts, NIn: pkts, ChunkMax: []int{1, 8, 128, 256}[r.Intn(4)], PaceUs: []int{0, 50, 300}[r.Intn(3)], BigMix: r.Intn(3) != 0}
 	if c.Procs > runtime.NumCPU() {
 		c.Procs = runtime.NumCPU()
+	}
+	switch i % 6 {
+	case 1: // interface down/up with TUN traffic while down, then pipelined multi-peer batches
+		c.DownUp = true
+		if c.Peers < 2 {
+			c.Peers = 2
+		}
+		c.TunBatch, c.ChunkMax, c.PaceUs = []int{16, 64, 128}[r.Intn(3)], 256, 0
+	case 3: // a peer is removed in the middle of the traffic while its containers are queued for encryption
+		// (measured: the workers must be the bottleneck as seen by the removed peer's sender -- few Ps, three
+		// peers flooding 1300..1400-byte packets, 128-packet reads; with 16 Ps the workers are always ahead)
+		c.Remove, c.Huge = true, true
+		c.Peers = 3
+		c.TunBatch, c.ChunkMax, c.PaceUs = 128, 256, 0
+		c.Procs = 2
+		c.Hogs, c.OneIn = 0, 0
+		c.VictimShare = []int{5, 5, 20, 60}[r.Intn(4)]
+		if c.NOut < 3000 {
+			c.NOut = 3000
+		}
+		c.NIn = 1000
 	}
 	if i%6 == 5 { // a slow consumer with single-packet containers: the 1024-deep per-peer queues fill up
 		c.BindBatch, c.TunBatch, c.ChunkMax, c.PaceUs = 1, 1, 256, 0
